@@ -34,6 +34,10 @@ def strip_host(h: str) -> str:
     return h.rstrip(".")
 
 
+def uses_default_store(point: dict[str, typing.Any]) -> bool:
+    return point["ca_source"] == "none" and point["ssl_context"] == "none" and not point["pyopenssl"]
+
+
 def demanded(point: dict[str, typing.Any], leaf: dict[str, typing.Any]) -> tuple[str, dict[str, typing.Any]]:
     """('must-reject' | 'must-accept' | 'either', details)"""
     cr = point["cert_reqs"]
@@ -51,6 +55,10 @@ def demanded(point: dict[str, typing.Any], leaf: dict[str, typing.Any]) -> tuple
     if mode != "CERT_NONE":
         both = point["ca_source"] in ("ca_certs+other_ca_cert_data", "other_ca_certs+ca_cert_data")  # a file for one CA plus data for the other
         chain_ok = both or (leaf["issuer"] == "trusted" and point["ca_source"] in ("ca_certs", "ca_cert_data")) or (leaf["issuer"] == "untrusted" and point["ca_source"] in ("other_ca_certs", "other_ca_cert_data"))
+        # nothing configured at all (no CA setting, no caller context): the process's default store applies, which the
+        # harness points at the first CA (SSL_CERT_FILE) - configured CAs must not be *added to* by that store
+        if uses_default_store(point) and leaf["issuer"] == "trusted":
+            chain_ok = True
         det["chain_ok"] = chain_ok
         verdicts.append("pass" if chain_ok else "fail")
     pin = point["fingerprint"]
@@ -72,7 +80,7 @@ def demanded(point: dict[str, typing.Any], leaf: dict[str, typing.Any]) -> tuple
         det["name"] = name
         det["name_ref"] = ref
         verdicts.append({"accept": "pass", "reject": "fail", "either": "either"}[ref])
-    if point.get("route") == "https-tunnel" and mode != "CERT_NONE" and point["ca_source"] not in ("ca_certs", "ca_cert_data", "ca_certs+other_ca_cert_data", "other_ca_certs+ca_cert_data"):
+    if point.get("route") == "https-tunnel" and mode != "CERT_NONE" and point["ca_source"] not in ("ca_certs", "ca_cert_data", "ca_certs+other_ca_cert_data", "other_ca_certs+ca_cert_data") and not uses_default_store(point):
         # the TLS leg to the https proxy is verified with the same mode and CA settings and comes first
         det["proxy_leg"] = "fail"
         verdicts.append("fail")
@@ -315,6 +323,15 @@ def run_shard(ctx: Ctx, rec: Recorder) -> None:
         pyo.inject_into_urllib3()
     rec.seen("backends", "pyopenssl" if pyopenssl else "ssl")
     certs = tlsnet.Certs()
+    import os
+    import tempfile
+
+    # the process-wide default trust store is part of the experiment: it holds the first CA, so a code path that consults it
+    # although CAs were configured (or a context was supplied) accepts certificates the configuration does not trust
+    empty_dir = tempfile.mkdtemp(prefix="vf-c07-capath-")
+    saved_env = {k: os.environ.get(k) for k in ("SSL_CERT_FILE", "SSL_CERT_DIR")}
+    os.environ["SSL_CERT_FILE"] = certs.ca_file
+    os.environ["SSL_CERT_DIR"] = empty_dir
     try:
         # (i) one-factor-at-a-time around the secure default, for every leaf x related host
         base = {"cert_reqs": "unset", "assert_hostname": "unset", "fingerprint": "unset", "server_hostname": "unset", "ssl_context": "none", "ca_source": "ca_certs", "issuer": "trusted", "route": "direct", "pyopenssl": pyopenssl}
@@ -365,6 +382,14 @@ def run_shard(ctx: Ctx, rec: Recorder) -> None:
             run_point(rec, p, certs)
     finally:
         certs.close()
+        for k, v in saved_env.items():
+            if v is None:
+                os.environ.pop(k, None)
+            else:
+                os.environ[k] = v
+        import shutil
+
+        shutil.rmtree(empty_dir, ignore_errors=True)
 
 
 def replay(case: dict[str, typing.Any], ctx: Ctx, rec: Recorder) -> None:
